@@ -157,3 +157,21 @@ def ascending_run_start(c, t):
 
 
 ascending_run_start.runtime_domain = prefix_argmax_exists.runtime_domain
+
+
+# DESCENDING = ASCENDING OF THE COMPLEMENT: for a permutation p and q = p.complement() (by the contract of
+# Perm.complement), the start of the maximal ascending run of q ending at j is the start of the maximal DESCENDING run of p
+# ending at j (c.rec_run_lo, the function of lemma run_decomposition_exists) - so the contract of
+# Perm.longestruns_descending, stated through the complement, speaks about the descending runs of p itself.
+@lemma("descending_runs_via_complement", {"p": "Perm"}, props=P11)
+def descending_runs_via_complement(c, p):
+    n = c.len(p)
+    q = c.call("Perm.complement", p)
+
+    def fact(i):
+        return c.implies(i < n, lambda: c.rec_asc_lo(q, i) == c.rec_run_lo(p, i))
+
+    return [("same_start", 0, n - 1, fact, ())]
+
+
+descending_runs_via_complement.runtime_domain = lambda quick: [(t,) for t in ((), (0,), (1, 0), (0, 1), (2, 0, 1), (0, 2, 1, 3), (3, 1, 4, 0, 2), (4, 3, 2, 1, 0))]
